@@ -32,6 +32,14 @@ impl Out {
     pub fn guard<F: FnOnce(&mut Out)>(&mut self, prop: &str, check: &str, f: F) {
         // progress marker: if the process dies inside this check (non-unwinding panic, signal), the
         // last marker on stderr names the property and the check that was running
+        // checks that killed the process in an earlier run of this module are skipped (VERIF_SKIP = "prop/check;prop/check"),
+        // so that the remaining checks of the module still run
+        if let Ok(skip) = std::env::var("VERIF_SKIP") {
+            let me = format!("{}/{}", prop, check);
+            if skip.split(';').any(|x| x == me) {
+                return;
+            }
+        }
         eprintln!("AT\t{}\t{}\t{}", self.module, prop, check);
         let r = catch_unwind(AssertUnwindSafe(|| {
             let mut inner = Out::new(self.module);
